@@ -1,0 +1,23 @@
+//go:build verif
+
+package grpcbridge
+
+import "github.com/renbou/grpcbridge/reflection"
+
+// Exports for the C15 verification harness (tag "verif" only).
+
+// VerifClosableWatcher is the interface aggregateWatcher fans out to.
+type VerifClosableWatcher interface {
+	reflection.Watcher
+	Close()
+}
+
+// VerifNewAggregateWatcher builds the aggregateWatcher that ReflectionRouter.Add installs, over arbitrary watchers.
+func VerifNewAggregateWatcher(ws ...VerifClosableWatcher) VerifClosableWatcher {
+	watchers := make([]closableWatcher, len(ws))
+	for i, w := range ws {
+		watchers[i] = w
+	}
+
+	return &aggregateWatcher{watchers: watchers}
+}
